@@ -140,6 +140,7 @@ let dispatch cmd r =
   | "com" -> let f = next_arr r in let lab = next_list r in let l = next_z r in
       let (t, s) = com_sums f lab l in out_lists [[t]; s]
   | "label" -> let f = next_arr r in let bc = next_arr r in let (o, n) = label f bc in out_lists [o; [n]]
+  | "uf_label" -> let f = next_arr r in let bc = next_arr r in let (o, n) = uf_label f bc in out_lists [o; [n]]
   | "locmm" -> let ismin = next_int r = 1 in let f = next_arr r in let bc = next_arr r in
       out_lists [locmm ismin f bc; List.map (fun p -> zb (locmm_spec ismin f bc p)) (all_positions f.shape)]
   | "regmm" -> let ismin = next_int r = 1 in let f = next_arr r in let bc = next_arr r in
